@@ -194,6 +194,31 @@ func Apply(e *Entry, v []byte, m Mut) ([]byte, bool) {
 			return nil, false
 		}
 		binary.LittleEndian.PutUint16(out[m.A%(n-1):], uint16(m.B))
+	case "ramp":
+		// the last A bytes (or the first, B&2) become a strictly increasing run ending at 0xff
+		// (or starting at 0, B&1): sorted index lists, counters and hint tables read such runs
+		// far beyond where random bytes stop them
+		k := m.A
+		if k <= 0 || n == 0 {
+			return nil, false
+		}
+		if k > n {
+			k = n
+		}
+		if k > 256 {
+			k = 256
+		}
+		seg := out[n-k:]
+		if m.B&2 != 0 {
+			seg = out[:k]
+		}
+		for i := range seg {
+			if m.B&1 != 0 {
+				seg[i] = byte(i)
+			} else {
+				seg[i] = byte(256 - k + i)
+			}
+		}
 	case "splice":
 		if m.A < 0 {
 			return nil, false
@@ -270,6 +295,11 @@ func enumerate(e *Entry, v []byte, p *Plan) []Mut {
 			all = append(all, Mut{K: "onebyte", B: 0}, Mut{K: "onebyte", B: 0xff}, Mut{K: "onebyte", B: 1})
 		}
 		all = append(all, Mut{K: "zeros"}, Mut{K: "ones"}, Mut{K: "rand", A: n, B: 1}, Mut{K: "rand", A: n, B: 2})
+		for _, k := range []int{2, 4, 8, 16, 32, 64, 96, 128, 200, 256} {
+			for b := 0; b < 4; b++ {
+				all = append(all, Mut{K: "ramp", A: k, B: b})
+			}
+		}
 	case "aware":
 		for i := range e.Aware {
 			for b := 0; b < 32; b++ {
@@ -482,8 +512,8 @@ func Gen(r *core.PRNG, tier string, filter func(*Entry) bool) *Plan {
 	if e.Cost >= 50 {
 		n = r.Range(3, 10)
 	}
-	kinds := []string{"flip", "trunc", "extend", "setbyte", "zeros", "ones", "empty", "nil", "onebyte", "rand", "set16", "set32", "set16le", "splice", "aware"}
-	wts := []int{30, 14, 6, 8, 1, 1, 1, 1, 2, 6, 10, 6, 3, 5, 12}
+	kinds := []string{"flip", "trunc", "extend", "setbyte", "zeros", "ones", "empty", "nil", "onebyte", "rand", "set16", "set32", "set16le", "splice", "aware", "ramp"}
+	wts := []int{30, 14, 6, 8, 1, 1, 1, 1, 2, 6, 10, 6, 3, 5, 12, 3}
 	for i := 0; i < n; i++ {
 		k := kinds[r.Pick(wts...)]
 		m := Mut{K: k, A: r.Intn(1 << 20), B: r.Intn(1 << 16)}
@@ -499,6 +529,8 @@ func Gen(r *core.PRNG, tier string, filter func(*Entry) bool) *Plan {
 			m.B = []int{0, 1, 0x7f, 0x80, 0xff, r.Intn(256)}[r.Intn(6)]
 		case "rand":
 			m.A = r.EdgeLen(300, 0, 1, 16, 32, 48, 96)
+		case "ramp":
+			m.A, m.B = 1+r.Intn(256), r.Intn(4)
 		}
 		p.Muts = append(p.Muts, m)
 	}
